@@ -16,13 +16,22 @@ EXTENDS Integers, Sequences, FiniteSets, SequencesExt, Functions
    that is not a byte string *)
 None == << -1 >>
 
-RECURSIVE LexLess(_, _)
-LexLess(a, b) ==
+RECURSIVE LexLessRec(_, _)
+LexLessRec(a, b) ==
     IF a = <<>> THEN b # <<>>
     ELSE IF b = <<>> THEN FALSE
     ELSE IF a[1] < b[1] THEN TRUE
     ELSE IF a[1] > b[1] THEN FALSE
-    ELSE LexLess(Tail(a), Tail(b))
+    ELSE LexLessRec(Tail(a), Tail(b))
+
+(* the same order without recursion, for very long strings (a 65535-byte namespace segment) *)
+LexLessFlat(a, b) ==
+    LET n == IF Len(a) < Len(b) THEN Len(a) ELSE Len(b)
+        d == {i \in 1..n : a[i] # b[i]}
+    IN IF d = {} THEN Len(a) < Len(b)
+       ELSE LET i == CHOOSE x \in d : \A y \in d : x <= y IN a[i] < b[i]
+
+LexLess(a, b) == IF Len(a) > 48 \/ Len(b) > 48 THEN LexLessFlat(a, b) ELSE LexLessRec(a, b)
 
 LexLeq(a, b) == a = b \/ LexLess(a, b)
 
